@@ -11,7 +11,11 @@ ASSUMPTIONS = ["pairs of runs of the same program text on the real code: the sec
                "exponents, constants) are part of the program and stay equal",
                "both runs must complete; pairs where either raises are counted and skipped",
                "a pair in which a revealed value (val()) is fed back as a public operand and differs between the runs is skipped: the "
-               "circuit then depends on a public output by design"]
+               "circuit then depends on a public output by design",
+               "selections whose branches are functions (gen/progs.py thunk_case: the condition flips between the two runs, both branch "
+               "functions are traced in either run)"]
+from .c17_twin import ASSUMPTIONS as _TWIN_ASSUMPTIONS
+ASSUMPTIONS = ASSUMPTIONS + _TWIN_ASSUMPTIONS
 PARTIAL = []
 LEVELS = "S"
 
@@ -40,7 +44,7 @@ def guard_regs(case, uses):
         w = t.split()
         if w[0] == "mk":
             for (j, u) in uses.get(k, []):
-                if u[0] == "genter" or (u[0] == "ite" and u[1] == f"r{k}"):
+                if u[0] in ("genter", "fthen") or (u[0] in ("ite", "fsel") and u[1] == f"r{k}"):
                     g.add(int(w[2][1:]))
     return g
 
@@ -89,7 +93,7 @@ def explore(ctx, extended=False, focus=None):
                "run is also compared with the Lean model at level S; distinct = (shape, operator set, kinds, bitlength, twin mode)")
     n = ctx.n(2000, 50000) * (4 if extended else 1)
     mix = [(5, progs.op_case), (1, progs.unop_case), (2, progs.method_case), (1, progs.ite_case), (2, progs.chain_case),
-           (3, progs.guarded_case), (2, progs.array_case)]
+           (3, progs.guarded_case), (2, progs.array_case), (1, progs.thunk_case)]
     base = corpus_cases("C06") + progs.generate(ctx.rnd, n, "c06x" if extended else "c06_", mix=mix)
     twins = [twin(c, ctx.rnd, invalid=(i % 2 == 1)) for i, c in enumerate(base)]
     ra = execute_all(base)
@@ -137,10 +141,17 @@ def explore(ctx, extended=False, focus=None):
                                            {"case_a": a.case.line(), "case_b": b.case.line()}))
         if len(ex.samples) < 4 and a.cons:
             ex.samples.append({"a": a.case.line(), "b": b.case.line()})
+    # calls of @snark-decorated functions are not part of the program language: the value-independence of what such a call adds to
+    # the constraint system is judged by the twin-run oracle shared with C17 (harness/props/c17_twin.py)
+    from . import c17_twin
+    c17_twin.twin_runs(ctx, ex, "C06", ctx.n(120, 3000) * (2 if extended else 1))
     return ex
 
 
 def replay(ctx, payload):
+    if "twin_group" in payload["replay"]:
+        from . import c17_twin
+        return c17_twin.replay(payload)
     la, lb = payload["replay"]["case_a"], payload["replay"]["case_b"]
     out = common.run_workers([la, lb], nproc=1)
     a = progcheck.Rec(progs.Case("a", {"p": 0, "bl": 0, "res": 0, "ign": 0}, la.split("|")[3].split(";")), out[0])
